@@ -158,6 +158,14 @@ CHECKS["C17"] = dict(
          "the executing instruction's text; the assembler rejects a+n >= 2^20; 16 bytes per row. Does NOT decide diagnostic texts.",
     design="DESIGN.md §6 C17")
 
+CHECKS["C15"] = dict(
+    technique="abort-site census by abstract interpretation of MIR (intervals, token-length atoms, ASCII-terminal slicing proofs) over every action of the assembler/data/print grammars and the front-end functions; interprocedural index-unit analysis (character count vs byte offset) over both crates; CFG rules for end-of-input exits of read loops and for depth tests on parser re-entry; call-graph recursion scan",
+    text="Decides, for every input text at once: which potential abort sites of the front end are proved safe, which definitely fail (with the operand range as witness) and which "
+         "remain undecided (listed); that no str is sliced or compared with a position counted in characters; that every stdin read loop can leave at end of input; that native "
+         "recursion driven by the input has a depth bound; that nothing else recurses. Does NOT decide proportional time/memory, nor the sites listed as undecided (str slices whose "
+         "bounds come from the newline table, unwraps of map lookups, the generated LR driver).",
+    design="DESIGN.md §6 C15")
+
 NOT_YET = {}
 
 
